@@ -22,6 +22,7 @@ def cases(rng, tier):
     # whole-language texts generated and rendered by the model (FullText family: macro definitions and invocations,
     # expression macros, calls, $variables, selector/topic, directives, any layout)
     cs += modelgen_cases(rng, "fullgen", 200 if tier == "quick" else 3000, "fulltext", sizes=(1, 2, 3, 4, 6, 9))
+    cs += family_cases(rng, [("many-expansions", G.gen_many_expansions)], 1 if tier == "quick" else 8, faults=0.0)
     return cs
 
 
